@@ -293,7 +293,11 @@ class Blockwise(ArrayExpr):
                     arg = token_or_identity(arg)
                 args_token.extend([arg, ind])
 
+            # A user-provided name is the prefix of this node's keys, so it is
+            # part of what parents depend on and must be part of the token.
+            name = self.operand("name") if "name" in self._parameters else None
             self._determ_token = _tokenize_deterministic(
+                *((name,) if name else ()),
                 self.func,
                 self.out_ind,
                 self.dtype,
